@@ -10,7 +10,7 @@ FAMILY = "logger"
 
 
 def consts(S, cap, maxops, affine):
-    return "CONSTANTS S = %d\n Cap = %d\n MaxOps = %d\n Affine = %s\n" % (S, cap, maxops, "TRUE" if affine else "FALSE")
+    return "CONSTANTS S = %d\n Cap = %d\n MaxOps = %d\n Affine = %s\n HookInPlace = FALSE\n" % (S, cap, maxops, "TRUE" if affine else "FALSE")
 
 
 def progs_of(r, S, tag):
@@ -42,18 +42,28 @@ def hook_fork_programs(n, seed):
         steps = []
         nh = nf = 0
         k = n_ % 10
+        LIB = [-1, -10, -11, -12, -13]   # Timestamp, Caller, CallerWithSkipFrameCount(+1..+3)
+
+        def ctxhook(i, j):
+            return [{"op": "With", "i": i, "j": j, "a": 0}, {"op": "CtxHook", "i": j, "j": j, "a": rng.choice(LIB)}, {"op": "Logger", "i": j, "j": j, "a": 0}]
         for _ in range(k):
-            if rng.random() < 0.7:
+            r = rng.random()
+            if r < 0.45:
                 nh += 1
                 steps.append({"op": "Hook", "i": 1, "j": 1, "a": nh})
+            elif r < 0.75:
+                steps += ctxhook(1, 1)
             else:
                 nf += 1
                 steps += [{"op": "With", "i": 1, "j": 1, "a": 0}, {"op": "Field", "i": 1, "j": 1, "a": nf}, {"op": "Logger", "i": 1, "j": 1, "a": 0}]
         sibs = [2, 3, 4][:rng.randint(2, 3)]
         for j in sibs:
-            if rng.random() < 0.6:
+            r = rng.random()
+            if r < 0.35:
                 nh += 1
                 steps.append({"op": "Hook", "i": 1, "j": j, "a": nh})
+            elif r < 0.75:
+                steps += ctxhook(1, j)
             else:
                 nf += 1
                 steps += [{"op": "With", "i": 1, "j": j, "a": 0}, {"op": "Field", "i": j, "j": j, "a": nf}, {"op": "Logger", "i": j, "j": j, "a": 0}]
@@ -114,8 +124,10 @@ def random_programs(n, seed, S=5, length=14):
             else:
                 if used.get(i):
                     continue
-                op = rng.choice(["Field", "Field", "Field", "Field", "GoCtx", "CtxReset", "Stack", "Logger", "Logger", "Logger"])
+                op = rng.choice(["Field", "Field", "Field", "Field", "GoCtx", "CtxReset", "Stack", "CtxHook", "CtxHook", "Logger", "Logger", "Logger"])
                 a = 0
+                if op == "CtxHook":
+                    a = rng.choice([-1, -10, -11, -12, -13])
                 if op == "Field":
                     nf += 1
                     a = nf
